@@ -50,6 +50,84 @@ theorem nuts_chain_seeds_distinct (seed : W) (i j : Nat) (hi : i < 2 ^ 64) (hj :
     seedFromU64 (nutsSeed seed i) ≠ seedFromU64 (nutsSeed seed j) :=
   (chain_seed_injective seed i j hi hj hij).2.1
 
+
+theorem rotl45_injective : Function.Injective (fun z : W => z.rotateLeft 45) := by
+  intro a b h
+  simp only at h
+  apply BitVec.eq_of_getLsbD_eq
+  intro i hi
+  have h1 := congrArg (fun z : W => z.getLsbD ((i + 45) % 64)) h
+  simp only [BitVec.getLsbD_rotateLeft] at h1
+  by_cases hc : (i + 45) % 64 < 45 % 64
+  · have e : 64 - 45 % 64 + (i + 45) % 64 = i := by omega
+    simp only [hc, e] at h1
+    simpa using h1
+  · have e : (i + 45) % 64 - 45 % 64 = i := by omega
+    have e2 : (i + 45) % 64 < 64 := by omega
+    simp only [hc, e, e2, decide_true, Bool.true_and] at h1
+    exact h1
+
+/-- `z ↦ z ^ (z <<< k)` is injective for `4k ≥ 64` (`d = d <<< k` forces `d = d <<< 4k = 0`). -/
+theorem xsl_injective (k : Nat) (hk : 64 ≤ 4 * k) : Function.Injective (fun z : W => z ^^^ (z <<< k)) := by
+  intro a b h
+  simp only at h
+  have hd : (a ^^^ b) = (a ^^^ b) <<< k := by
+    have h2 : (a ^^^ (a <<< k)) ^^^ (b ^^^ (b <<< k)) = 0#64 := by rw [h]; exact BitVec.xor_self
+    have h3 : (a ^^^ b) ^^^ ((a ^^^ b) <<< k) = 0#64 := by
+      rw [BitVec.shiftLeft_xor_distrib]
+      rw [← h2]
+      ac_rfl
+    exact BitVec.xor_eq_zero_iff.mp h3
+  have h4 : (a ^^^ b) = (a ^^^ b) <<< (k + k + k + k) := by
+    rw [BitVec.shiftLeft_add, BitVec.shiftLeft_add, BitVec.shiftLeft_add, ← hd, ← hd, ← hd, ← hd]
+  have hz : (a ^^^ b) <<< (k + k + k + k) = 0#64 := BitVec.shiftLeft_eq_zero (by omega)
+  rw [hz] at h4
+  exact BitVec.xor_eq_zero_iff.mp h4
+
+/-- the xoshiro256++ state transition is a bijection of the state space, hence injective: two generators in different
+    states are in different states after the step. -/
+theorem next_state_injective (x y : Xo) (h : x.next.2 = y.next.2) : x = y := by
+  obtain ⟨a0, a1, a2, a3⟩ := x
+  obtain ⟨b0, b1, b2, b3⟩ := y
+  simp only [Xo.next, Xo.mk.injEq] at h
+  obtain ⟨h0, h1, h2, h3⟩ := h
+  have e3 : a3 ^^^ a1 = b3 ^^^ b1 := rotl45_injective h3
+  have e0 : a0 = b0 := by
+    have : a0 ^^^ (a3 ^^^ a1) ^^^ (a3 ^^^ a1) = b0 ^^^ (b3 ^^^ b1) ^^^ (b3 ^^^ b1) := by rw [h0, e3]
+    simpa [BitVec.xor_assoc] using this
+  have e1 : a1 = b1 := by
+    apply xsl_injective 17 (by omega)
+    simp only
+    have : (a1 ^^^ (a2 ^^^ a0)) ^^^ (a2 ^^^ a0 ^^^ a1 <<< 17) = (b1 ^^^ (b2 ^^^ b0)) ^^^ (b2 ^^^ b0 ^^^ b1 <<< 17) := by rw [h1, h2]
+    have l : ∀ p q r : W, (p ^^^ q) ^^^ (q ^^^ r) = p ^^^ r := by
+      intro p q r
+      rw [BitVec.xor_assoc, ← BitVec.xor_assoc q q r, BitVec.xor_self, BitVec.zero_xor]
+    rwa [l, l] at this
+  have e3' : a3 = b3 := by
+    have : (a3 ^^^ a1) ^^^ a1 = (b3 ^^^ b1) ^^^ b1 := by rw [e3, e1]
+    simpa [BitVec.xor_assoc] using this
+  have e2 : a2 = b2 := by
+    rw [e1, e0] at h1
+    have : b1 ^^^ (b1 ^^^ (a2 ^^^ b0)) ^^^ b0 = b1 ^^^ (b1 ^^^ (b2 ^^^ b0)) ^^^ b0 := by rw [h1]
+    simpa [← BitVec.xor_assoc, BitVec.xor_assoc _ b0 b0] using this
+  subst e0 e1 e2 e3'
+  rfl
+
+/-- **streams never merge**: generators started in different states are in different states after any number of draws. -/
+theorem iter_injective (n : Nat) (x y : Xo) (h : Xo.iter n x = Xo.iter n y) : x = y := by
+  induction n generalizing x y with
+  | zero => exact h
+  | succ n ih => exact next_state_injective x y (ih _ _ h)
+
+/-- NUTS / MH acceptance chains `i ≠ j`: after any number `n` of draws the two generators are still in different states. -/
+theorem nuts_chains_never_merge (seed : W) (i j : Nat) (hi : i < 2 ^ 64) (hj : j < 2 ^ 64) (hij : i ≠ j) (n : Nat) :
+    Xo.iter n (seedFromU64 (nutsSeed seed i)) ≠ Xo.iter n (seedFromU64 (nutsSeed seed j)) :=
+  fun h => nuts_chain_seeds_distinct seed i j hi hj hij (iter_injective n _ _ h)
+
+theorem mh_streams_never_merge (seed : W) (i j : Nat) (hi : i < 2 ^ 63) (hj : j < 2 ^ 63) (n : Nat) :
+    Xo.iter n (seedFromU64 (mhAcceptSeed seed i)) ≠ Xo.iter n (seedFromU64 (mhProposalSeed seed j)) :=
+  fun h => (mh_chain_streams_distinct seed i j hi hj).2.2 (iter_injective n _ _ h)
+
 end MiniMcmcVerif.Seeds
 
 namespace MiniMcmcVerif.Init
